@@ -136,4 +136,357 @@ theorem run_pointwise (R : Str → Str → Prop) (hR : ∀ st a b, R a b → ste
     | error e => rfl
     | ok p => simp only [ih p.1]
 
+theorem splitNL_ne_nil (s : Str) : splitNL s ≠ [] := by
+  cases s with
+  | nil => simp [splitNL]
+  | cons c r =>
+    simp only [splitNL]
+    split
+    · simp
+    · split <;> simp
+
+/-- `(x + "\n" + y).split("\n") == x.split("\n") + y.split("\n")` -/
+theorem splitNL_append (x y : Str) : splitNL (x ++ '\n' :: y) = splitNL x ++ splitNL y := by
+  induction x with
+  | nil => simp [splitNL]
+  | cons c r ih =>
+    by_cases hc : c = '\n'
+    · subst hc; simp [splitNL, ih]
+    · simp only [List.cons_append, splitNL, hc, if_false, ih]
+      cases h : splitNL r with
+      | nil => exact absurd h (splitNL_ne_nil r)
+      | cons l ls => simp
+
+theorem splitNL_noNL (b : Str) (h : ∀ ch ∈ b, ch ≠ '\n') : splitNL b = [b] := by
+  induction b with
+  | nil => rfl
+  | cons c r ih =>
+    have hc : c ≠ '\n' := h c (by simp)
+    simp [splitNL, hc, ih (fun ch hch => h ch (by simp [hch]))]
+
+/-- one line with trailing whitespace appended, all others untouched -/
+theorem pointwise_one (R : Str → Str → Prop) (hrefl : ∀ l, R l l) (A B : List Str) (l l' : Str) (h : R l l') :
+    Pointwise R (A ++ l :: B) (A ++ l' :: B) := by
+  induction A with
+  | nil =>
+    refine Pointwise.cons h ?_
+    induction B with
+    | nil => exact Pointwise.nil
+    | cons b bs ih => exact Pointwise.cons (hrefl b) ih
+  | cons a as ih => exact Pointwise.cons (hrefl a) ih
+
+theorem splitNL_noNL_mem (s : Str) : ∀ l ∈ splitNL s, ∀ ch ∈ l, ch ≠ '\n' := by
+  induction s with
+  | nil => intro l hl; simp [splitNL] at hl; subst hl; simp
+  | cons c r ih =>
+    intro l hl
+    by_cases hc : c = '\n'
+    · subst hc
+      simp only [splitNL, if_true, List.mem_cons] at hl
+      rcases hl with rfl | h
+      · simp
+      · exact ih l h
+    · simp only [splitNL, hc, if_false] at hl
+      cases hs : splitNL r with
+      | nil => exact absurd hs (splitNL_ne_nil r)
+      | cons a as =>
+        rw [hs] at hl ih
+        simp only [List.mem_cons] at hl
+        rcases hl with rfl | h
+        · intro ch hch
+          rcases List.mem_cons.1 hch with h1 | h1
+          · rw [h1]; exact hc
+          · exact ih a (by simp) ch h1
+        · exact ih l (by simp [h])
+
+theorem splitNL_joinNL : ∀ (ls : List Str), ls ≠ [] → (∀ l ∈ ls, ∀ ch ∈ l, ch ≠ '\n') → splitNL (joinNL ls) = ls
+  | [], h, _ => absurd rfl h
+  | [l], _, h => by simpa [joinNL] using splitNL_noNL l (h l (by simp))
+  | l :: m :: ls, _, h => by
+    have ih := splitNL_joinNL (m :: ls) (by simp) (fun x hx => h x (by simp [hx]))
+    simp only [joinNL]
+    rw [splitNL_append, splitNL_noNL l (h l (by simp)), ih]
+    rfl
+
+theorem scaleLine_noNL (k : Nat) (l : Str) (h : ∀ ch ∈ l, ch ≠ '\n') : ∀ ch ∈ scaleLine k l, ch ≠ '\n' := by
+  intro ch hch
+  unfold scaleLine at hch
+  rcases List.mem_append.1 hch with h1 | h1
+  · rw [(List.mem_replicate.1 h1).2]; decide
+  · exact h ch (List.mem_of_mem_drop h1)
+
+theorem step_plainStmt (st : St) (l : Str) (hB : st.atBoundary = true) (hml : st.mlComment = false) (hp : plainStmt (strip l) = true) :
+    step st l = .ok ({ st with comment := none, pending := none },
+      [{ text := firstPart (strip l), indentation := lead l, comment := st.comment }]) := by
+  simp only [St.atBoundary, Bool.and_eq_true, Option.isNone_iff_eq_none] at hB
+  simp only [plainStmt, Bool.and_eq_true, Bool.not_eq_true', List.isEmpty_eq_false_iff] at hp
+  obtain ⟨⟨⟨⟨h1, h2⟩, h3⟩, h4⟩, h5⟩ := hp
+  unfold step stepV
+  simp [hB.1, hB.2, h2, h1, h3, h4, hml, settle, h5]
+
+theorem step_hashLine (st : St) (l c : Str) (hB : st.atBoundary = true) (hl : strip l = '#' :: c) :
+    step st l = .ok ({ st with comment := addComment st.comment (strip c) }, []) := by
+  simp only [St.atBoundary, Bool.and_eq_true, Option.isNone_iff_eq_none] at hB
+  unfold step stepV
+  simp [hB.1, hB.2, hl, isOpener, startsWith, q1, q3]
+
+theorem run_blanks (st : St) (blanks : List Str) (hb : ∀ b ∈ blanks, strip b = []) (hB : st.atBoundary = true) (X : List Str) :
+    run st (blanks ++ X) = run st X := by
+  induction blanks with
+  | nil => rfl
+  | cons b bs ih =>
+    simp only [List.cons_append, run, step_blank st b (hb b (by simp)) hB]
+    rw [ih (fun x hx => hb x (by simp [hx]))]
+    cases run st X <;> simp
+
+/-- Positive specification of what the comment above a statement means: a `# c` line, then any number of blank lines (any `str.isspace`
+    characters), then an ordinary statement - the statement's record carries the comment `c` (stripped), and the comment is used up.
+    (`$v = ...` below a comment gets the comment as `instructions`; a bot step gets it as generation instructions.) -/
+theorem numbered_comment_attaches (pre post blanks : List Str) (cl c stmt : Str)
+    (st' : St) (out : List Rec) (hpre : runPre St.init pre = .ok (st', out))
+    (hB : st'.atBoundary = true) (hml : st'.mlComment = false) (hc0 : st'.comment = none)
+    (hcl : strip cl = '#' :: c) (hb : ∀ b ∈ blanks, strip b = []) (hs : plainStmt (strip stmt) = true) :
+    numbered (pre ++ cl :: (blanks ++ stmt :: post)) =
+      (run { st' with comment := none, pending := none } post).map fun rest =>
+        out ++ { text := firstPart (strip stmt), indentation := lead stmt, comment := some (strip c) } :: rest := by
+  unfold numbered
+  rw [run_append, hpre]
+  have hB1 : ({ st' with comment := addComment st'.comment (strip c) } : St).atBoundary = true := by
+    simpa [St.atBoundary] using hB
+  have hstep := step_plainStmt { st' with comment := addComment st'.comment (strip c) } stmt hB1 hml hs
+  simp only [run, step_hashLine st' cl c hB hcl]
+  rw [run_blanks _ blanks hb hB1]
+  simp only [run, hstep]
+  simp only [hc0, addComment]
+  cases run { st' with comment := none, pending := none } post <;> simp [Except.map]
+
+theorem run_commentLines (ls : List Str) (h : ∀ l ∈ ls, strip l = [] ∨ ∃ c, strip l = '#' :: c) (X : List Str) : ∀ (st : St),
+    st.atBoundary = true → run st (ls ++ X) = run { st with comment := commentOf st.comment ls } X := by
+  induction ls with
+  | nil => intro st _; rfl
+  | cons l ls ih =>
+    intro st hB
+    have ih' := ih (fun x hx => h x (by simp [hx]))
+    rcases h l (by simp) with hb | ⟨c, hc⟩
+    · simp only [List.cons_append, run, step_blank st l hb hB]
+      rw [ih' st hB]
+      simp only [commentOf, hb]
+      cases run _ X <;> simp
+    · have hB1 : ({ st with comment := addComment st.comment (strip c) } : St).atBoundary = true := by
+        simpa [St.atBoundary] using hB
+      simp only [List.cons_append, run, step_hashLine st l c hB hc]
+      rw [ih' _ hB1]
+      simp only [commentOf, hc]
+      cases run _ X <;> simp
+
+/-- Positive specification, general form: a block of `# …` comment lines and blank lines in any order, then an ordinary statement - the
+    statement's record carries the gathered comment (`commentOf`), wherever the blank lines are. -/
+theorem numbered_comments_attach (pre post block : List Str) (stmt : Str)
+    (st' : St) (out : List Rec) (hpre : runPre St.init pre = .ok (st', out))
+    (hB : st'.atBoundary = true) (hml : st'.mlComment = false)
+    (hblock : ∀ l ∈ block, strip l = [] ∨ ∃ c, strip l = '#' :: c) (hs : plainStmt (strip stmt) = true) :
+    numbered (pre ++ (block ++ stmt :: post)) =
+      (run { st' with comment := none, pending := none } post).map fun rest =>
+        out ++ { text := firstPart (strip stmt), indentation := lead stmt, comment := commentOf st'.comment block } :: rest := by
+  unfold numbered
+  rw [run_append, hpre]
+  have hB1 : ({ st' with comment := commentOf st'.comment block } : St).atBoundary = true := by
+    simpa [St.atBoundary] using hB
+  have hstep := step_plainStmt { st' with comment := commentOf st'.comment block } stmt hB1 hml hs
+  simp only []
+  rw [run_commentLines block hblock _ st' hB]
+  simp only [run, hstep]
+  cases run { st' with comment := none, pending := none } post <;> simp [Except.map]
+
+/-- the blank lines of a block are irrelevant for the gathered comment -/
+theorem commentOf_blank (cur : Option Str) (a b : List Str) (l : Str) (hl : strip l = []) :
+    commentOf cur (a ++ l :: b) = commentOf cur (a ++ b) := by
+  induction a generalizing cur with
+  | nil => simp [commentOf, hl]
+  | cons x xs ih =>
+    simp only [List.cons_append, commentOf]
+    split <;> exact ih _
+
+theorem pointwise_map (R : Str → Str → Prop) (f : Str → Str) (h : ∀ l, R l (f l)) : ∀ ls : List Str, Pointwise R ls (ls.map f)
+  | [] => Pointwise.nil
+  | l :: ls => Pointwise.cons (h l) (pointwise_map R f h ls)
+
+theorem step_oneLineBlock (st : St) (l body : Str) (hB : st.atBoundary = true) (hml : st.mlComment = false)
+    (h : oneLineBlock (strip l) = some body) :
+    step st l = .ok ({ st with comment := some body }, []) := by
+  simp only [St.atBoundary, Bool.and_eq_true, Option.isNone_iff_eq_none] at hB
+  unfold oneLineBlock at h
+  simp only [] at h
+  split at h
+  · rename_i hc
+    simp only [Bool.and_eq_true, Bool.not_eq_true', List.isEmpty_eq_false_iff, Bool.or_eq_false_iff] at hc
+    obtain ⟨⟨⟨⟨h1, h2⟩, h3⟩, h4⟩, h5, h6⟩ := hc
+    injection h with h
+    unfold step stepV
+    simp [hB.1, hB.2, h1, h2, h3, h4, hml, h5, h6, h]
+  · cases h
+
+theorem oneLineBlock_hash (c : Str) : oneLineBlock ('#' :: c) = none := by
+  simp [oneLineBlock, startsWith]
+
+theorem run_commentLinesB (ls : List Str)
+    (h : ∀ l ∈ ls, strip l = [] ∨ (∃ c, strip l = '#' :: c) ∨ ∃ body, oneLineBlock (strip l) = some body) (X : List Str) : ∀ (st : St),
+    st.atBoundary = true → st.mlComment = false → run st (ls ++ X) = run { st with comment := commentOfB st.comment ls } X := by
+  induction ls with
+  | nil => intro st _ _; rfl
+  | cons l ls ih =>
+    intro st hB hml
+    have ih' := ih (fun x hx => h x (by simp [hx]))
+    rcases h l (by simp) with hb | ⟨c, hc⟩ | ⟨body, hbody⟩
+    · simp only [List.cons_append, run, step_blank st l hb hB]
+      rw [ih' st hB hml]
+      have : commentOfB st.comment (l :: ls) = commentOfB st.comment ls := by
+        simp [commentOfB, hb, oneLineBlock]
+      rw [this]
+      cases run _ X <;> simp
+    · have hB1 : ({ st with comment := addComment st.comment (strip c) } : St).atBoundary = true := by
+        simpa [St.atBoundary] using hB
+      simp only [List.cons_append, run, step_hashLine st l c hB hc]
+      rw [ih' _ hB1 hml]
+      simp only [commentOfB, hc]
+      cases run _ X <;> simp
+    · have hB1 : ({ st with comment := some body } : St).atBoundary = true := by
+        simpa [St.atBoundary] using hB
+      simp only [List.cons_append, run, step_oneLineBlock st l body hB hml hbody]
+      rw [ih' _ hB1 hml]
+      have : commentOfB st.comment (l :: ls) = commentOfB (some body) ls := by
+        cases hs : strip l with
+        | nil => rw [hs] at hbody; simp [oneLineBlock] at hbody
+        | cons a r =>
+          by_cases ha : a = '#'
+          · subst ha; rw [hs, oneLineBlock_hash] at hbody; cases hbody
+          · rw [hs] at hbody
+            simp only [commentOfB, hs]
+            split
+            · rename_i c' heq; simp at heq; exact absurd heq.1 ha
+            · simp [hbody]
+      rw [this]
+      cases run _ X <;> simp
+
+theorem numbered_comment_block_attach (pre post block : List Str) (stmt : Str)
+    (st' : St) (out : List Rec) (hpre : runPre St.init pre = .ok (st', out))
+    (hB : st'.atBoundary = true) (hml : st'.mlComment = false)
+    (hblock : ∀ l ∈ block, strip l = [] ∨ (∃ c, strip l = '#' :: c) ∨ ∃ body, oneLineBlock (strip l) = some body)
+    (hs : plainStmt (strip stmt) = true) :
+    numbered (pre ++ (block ++ stmt :: post)) =
+      (run { st' with comment := none, pending := none } post).map fun rest =>
+        out ++ { text := firstPart (strip stmt), indentation := lead stmt, comment := commentOfB st'.comment block } :: rest := by
+  unfold numbered
+  rw [run_append, hpre]
+  have hB1 : ({ st' with comment := commentOfB st'.comment block } : St).atBoundary = true := by
+    simpa [St.atBoundary] using hB
+  have hstep := step_plainStmt { st' with comment := commentOfB st'.comment block } stmt hB1 hml hs
+  simp only []
+  rw [run_commentLinesB block hblock _ st' hB hml]
+  simp only [run, hstep]
+  cases run { st' with comment := none, pending := none } post <;> simp [Except.map]
+
+theorem step_openLine (st : St) (l t : Str) (hB : st.atBoundary = true) (hml : st.mlComment = false) (h : openLine (strip l) = some t) :
+    step st l = .ok ({ st with mlComment := true, comment := some t }, []) := by
+  simp only [St.atBoundary, Bool.and_eq_true, Option.isNone_iff_eq_none] at hB
+  unfold openLine at h
+  simp only [] at h
+  split at h
+  · rename_i hc
+    simp only [Bool.and_eq_true, Bool.not_eq_true', List.isEmpty_eq_false_iff] at hc
+    obtain ⟨⟨⟨⟨h1, h2⟩, h3⟩, h4⟩, h5⟩ := hc
+    injection h with h
+    unfold step stepV
+    simp [hB.1, hB.2, h1, h2, h3, h4, hml, h]
+    intro h6
+    simpa [h6] using h5
+  · cases h
+
+theorem step_midLine (st : St) (l c p : Str) (hB : st.atBoundary = true) (hml : st.mlComment = true) (hc : st.comment = some c)
+    (h : midLine (strip l) = some p) :
+    step st l = .ok ({ st with comment := some (c ++ '\n' :: p) }, []) := by
+  simp only [St.atBoundary, Bool.and_eq_true, Option.isNone_iff_eq_none] at hB
+  unfold midLine at h
+  simp only [] at h
+  split at h
+  · rename_i hcnd
+    simp only [Bool.and_eq_true, Bool.not_eq_true', List.isEmpty_eq_false_iff] at hcnd
+    obtain ⟨⟨⟨h1, h2⟩, h3⟩, h4⟩ := hcnd
+    injection h with h
+    subst h
+    unfold step stepV
+    simp [hB.1, hB.2, h1, h2, h3, h4, hml, hc]
+  · cases h
+
+theorem step_closeLine (st : St) (l c t : Str) (hB : st.atBoundary = true) (hml : st.mlComment = true) (hc : st.comment = some c)
+    (h : closeLine (strip l) = some t) :
+    step st l = .ok ({ st with mlComment := false, comment := some (c ++ '\n' :: t) }, []) := by
+  simp only [St.atBoundary, Bool.and_eq_true, Option.isNone_iff_eq_none] at hB
+  unfold closeLine at h
+  simp only [] at h
+  split at h
+  · rename_i hcnd
+    simp only [Bool.and_eq_true, Bool.not_eq_true', List.isEmpty_eq_false_iff] at hcnd
+    obtain ⟨⟨⟨h1, h2⟩, h3⟩, h4⟩ := hcnd
+    injection h with h
+    unfold step stepV
+    simp [hB.1, hB.2, h1, h2, h3, h4, hml, hc, h]
+  · cases h
+
+theorem runPre_append (a b : List Str) : ∀ st : St,
+    runPre st (a ++ b) =
+      match runPre st a with
+      | .error e => .error e
+      | .ok (s1, o1) =>
+        match runPre s1 b with
+        | .error e => .error e
+        | .ok (s2, o2) => .ok (s2, o1 ++ o2) := by
+  induction a with
+  | nil => intro st; simp only [List.nil_append, runPre]; cases runPre st b <;> simp
+  | cons l ls ih =>
+    intro st
+    simp only [List.cons_append, runPre]
+    cases step st l with
+    | error e => rfl
+    | ok p =>
+      simp only [ih p.1]
+      cases runPre p.1 ls with
+      | error e => rfl
+      | ok q =>
+        simp only []
+        cases runPre q.1 b with
+        | error e => rfl
+        | ok r => simp [List.append_assoc]
+
+theorem runPre_mids (mids : List Str) (h : ∀ l ∈ mids, strip l = [] ∨ ∃ p, midLine (strip l) = some p) : ∀ (st : St) (c : Str),
+    st.atBoundary = true → st.mlComment = true → st.comment = some c →
+    runPre st mids = .ok ({ st with comment := some (blockBody c mids) }, []) := by
+  induction mids with
+  | nil => intro st c _ _ hc; simp [runPre, blockBody, ← hc]
+  | cons l ls ih =>
+    intro st c hB hml hc
+    have ih' := ih (fun x hx => h x (by simp [hx]))
+    rcases h l (by simp) with hb | ⟨p, hp⟩
+    · simp only [runPre, step_blank st l hb hB]
+      rw [ih' st c hB hml hc]
+      simp [blockBody, hb, midLine]
+    · have hB1 : ({ st with comment := some (c ++ '\n' :: p) } : St).atBoundary = true := by simpa [St.atBoundary] using hB
+      simp only [runPre, step_midLine st l c p hB hml hc hp]
+      rw [ih' _ (c ++ '\n' :: p) hB1 hml rfl]
+      simp [blockBody, hp]
+
+/-- a whole multi-line `\"\"\"` comment block: opener, middle lines (blank lines anywhere among them), closer -/
+theorem runPre_mlBlock (st : St) (openL closeL t u : Str) (mids : List Str)
+    (hB : st.atBoundary = true) (hml : st.mlComment = false)
+    (ho : openLine (strip openL) = some t) (hm : ∀ l ∈ mids, strip l = [] ∨ ∃ p, midLine (strip l) = some p)
+    (hc : closeLine (strip closeL) = some u) :
+    runPre st (openL :: (mids ++ [closeL])) =
+      .ok ({ st with mlComment := false, comment := some (blockBody t mids ++ '\n' :: u) }, []) := by
+  have hB1 : ({ st with mlComment := true, comment := some t } : St).atBoundary = true := by simpa [St.atBoundary] using hB
+  have hB2 : ({ st with mlComment := true, comment := some (blockBody t mids) } : St).atBoundary = true := by simpa [St.atBoundary] using hB
+  simp only [runPre, step_openLine st openL t hB hml ho]
+  rw [runPre_append, runPre_mids mids hm _ t hB1 rfl rfl]
+  simp only [runPre, step_closeLine _ closeL (blockBody t mids) u hB2 rfl rfl hc]
+  simp
+
 end NemoVerif.NumberedLines
